@@ -58,6 +58,10 @@ FAMILIES = {
     "month": (["march"], {"month"}),
     "weekday": (["friday"], set()),
     "time": ([("H", 2), ":", ("T", 2)], set()),
+    # a weekday name next to a month and/or year, no day of month
+    "weekday-month-year": (["friday", " ", "march", " ", ("Y", 4)], {"month", "year"}),
+    "weekday-month": (["monday", " ", "january"], {"month"}),
+    "weekday-year": (["sunday", " ", ("Y", 4)], {"year"}),
     "full-words": ([("D", 2), " ", "march", " ", ("Y", 4)], {"day", "month", "year"}),
     "full-words-time": ([("D", 2), " ", "march", " ", ("Y", 4), " ", ("H", 2), ":", ("T", 2)],
                         {"day", "month", "year"}),
@@ -202,7 +206,9 @@ class strict_result_independent_of_now:
         for fam in ("full-words", "full-words-time"):
             out.append(dict(STRICT_PARSING=True, REQUIRE_PARTS=[], family=fam))
         for fam, req in (("month-year", ["month", "year"]), ("year", ["year"]),
-                         ("day-month", ["day", "month"]), ("month", ["month"])):
+                         ("day-month", ["day", "month"]), ("month", ["month"]),
+                         ("weekday-month-year", ["month", "year"]), ("weekday-month-year", ["month"]),
+                         ("weekday-month", ["month"]), ("weekday-year", ["year"])):
             out.append(dict(STRICT_PARSING=False, REQUIRE_PARTS=req, family=fam))
         for name in _numeric_layouts():
             out.append(dict(STRICT_PARSING=True, REQUIRE_PARTS=[], family=name))
@@ -361,6 +367,13 @@ class api_level_strictness:
             dict(string="02/29", formats=None, strict={"REQUIRE_PARTS": ["year"]}, langs=["en"]),
             dict(string="1484823450", formats=None, strict={"STRICT_PARSING": True}, langs=["en"]),
             dict(string="10 mars", formats=None, strict={"STRICT_PARSING": True}, langs=["fr", "en"]),
+            # several readings of one string (two formats; a format and the absolute parser):
+            # strictness may reject, it may not switch to another reading
+            dict(string="01 12 15", formats=["%H %M %S", "%m %d %y"], strict={"STRICT_PARSING": True},
+                 langs=["en"]),
+            dict(string="March 15", formats=["%B %y"], strict={"REQUIRE_PARTS": ["day"]}, langs=["en"]),
+            dict(string="10 11", formats=["%H %M", "%d %m"], strict={"REQUIRE_PARTS": ["month"]},
+                 langs=["en"]),
         ]
 
     @staticmethod
@@ -391,14 +404,16 @@ class api_level_strictness:
         off, on = out.value
         states = {"March 2015": {"month", "year"}, "2015": {"year"},
                   "12 March 2015": {"day", "month", "year"}, "02/29": {"day", "month"},
-                  "1484823450": {"day", "month", "year"}, "10 mars": {"day", "month"}}[case["string"]]
+                  "1484823450": {"day", "month", "year"}, "10 mars": {"day", "month"}}.get(case["string"])
         required = {"day", "month", "year"} if case["strict"].get("STRICT_PARSING") else set(
             case["strict"]["REQUIRE_PARTS"])
-        return {
+        res = {
             "no-exception": True,
             "strict-result-is-the-non-strict-result-or-None": on is None or on == off,
-            "a-result-only-if-the-string-states-the-required-parts": on is None or required <= states,
         }
+        if states is not None:  # (strings with several readings: only the filtering clause)
+            res["a-result-only-if-the-string-states-the-required-parts"] = on is None or required <= states
+        return res
 
 
 CONTRACTS += [strict_needs_three_tokens, two_token_now_independence, api_level_strictness]
